@@ -72,7 +72,10 @@ fn tojson(m: &BTreeMap<String, Value>) -> Value {
 fn build_source(root: &Path, rng: &mut Rng) {
     std::fs::create_dir_all(root.join("d/e")).unwrap();
     std::fs::create_dir_all(root.join("emptydir")).unwrap();
-    let files = [("a", 300), ("b", 0), ("d/c", 64), ("d/e/f", 1000), ("d/zeros", 512), ("g", 129)];
+    // siblings of directories whose names continue with a byte below '/': listing order and byte order of the paths differ
+    std::fs::create_dir_all(root.join("d-x")).unwrap();
+    let files = [("a", 300), ("b", 0), ("d/c", 64), ("d/e/f", 1000), ("d/zeros", 512), ("g", 129),
+                 ("d.bak", 70), ("d-x/k", 33), ("d e", 20), ("d+", 10), ("d/e.x", 40), ("emptydir,v", 5)];
     for (n, len) in files {
         let data = if n == "d/zeros" {
             // zero blocks in the middle (sparse candidates)
@@ -189,6 +192,9 @@ fn mutate(dest: &Path, rng: &mut Rng, kind: u64) -> String {
             std::fs::create_dir_all(dest.join("extra-dir/sub")).unwrap();
             std::fs::write(dest.join("extra-dir/sub/y"), b"y").unwrap();
             std::fs::write(dest.join("d/extra-in-d"), b"z").unwrap();
+            std::fs::write(dest.join("d/zzz-last-in-d"), b"z").unwrap();
+            std::fs::write(dest.join("d/e/zzz-last-in-e"), b"z").unwrap();
+            _ = std::fs::create_dir_all(dest.join("emptydir/now-filled"));
             _ = symlink("a", dest.join("extra-link"));
             "extras".into()
         }
